@@ -778,15 +778,19 @@ def gen_profile_spec(rng):
         grid, kinds = [], ['scalar']
     elif dim == 1:
         n = rng.randint(2, 7)
-        if not interp and rng.random() < 0.12:
-            n = 1                   # one point, free variable given as a bare scalar
-            fv_scalar = rng.choice(['pyint', 'pyfloat', 'np.int64', 'np.float32', 'np.float64'])
+        if not interp and rng.random() < 0.2:
+            n = 1                   # one point: free variable given as a bare scalar or as a one-element array
+            fv_scalar = rng.choice(['pyint', 'pyfloat', 'np.int64', 'np.float32', 'np.float64', None, None])
+        elif rng.random() < 0.3:
+            n = 2
         fv_dtype = [rng.choice(['f64', 'f64', 'int', 'int32', 'f32'])]
         if fv_scalar:
             fv_dtype = ['int' if fv_scalar in ('pyint', 'np.int64') else ('f32' if fv_scalar == 'np.float32' else 'f64')]
         grid, kinds = [axis(n, 0.05, 0.3, fv_dtype[0])], ['arr1', 'f1', 'f1n']
     else:
         n, m = rng.randint(2, 4), rng.randint(2, 4)
+        if not interp and rng.random() < 0.25:
+            n, m = rng.choice([(1, m), (n, 1), (1, 1)])      # degenerate axes are legal for the direct entry points
         fv_dtype = [rng.choice(['f64', 'f64', 'int', 'int32', 'f32']), rng.choice(['f64', 'f64', 'int', 'f32'])]
         grid = [axis(n, 0.2, 0.4, fv_dtype[0]), axis(m, 0.2, 0.4, fv_dtype[1])]
         kinds = ['arr2', 'f2']
@@ -1237,9 +1241,13 @@ def run_entry_agreement(ctx, env, n):
         el = env.element(case)
         donor = env.donor(case)
         dim = rng.choice([1, 1, 2])
-        npt = rng.randint(3, 6)
-        xs = [1.05 * i / (npt - 1) for i in range(npt)]
+        # profile lengths: 1 (direct entry point only), 2, 3 and a few more; the first iterations force the minimal psi_n grids
+        npt = rng.choice([1, 2, 2, 3, 3, 4, 5, 6])
+        if it < 4:
+            dim, npt = 1, (2, 3, 2, 4)[it]
+        xs = [1.05 * i / (npt - 1) for i in range(npt)] if npt > 1 else [0.4]
         ys = [0.2 + 0.4 * j for j in range(rng.randint(2, 3))]
+        ctx.count('profile-length:match:%d%s' % (npt, '' if dim == 1 else 'x%d' % len(ys)))
         # coordinate dtype: float64 / float32 (coordinates rounded to float32 first); 2-D also integer coordinates
         xdt = rng.choice(['f64', 'f64', 'f32'])
         ydt = rng.choice(['f64', 'f32', 'int'])
@@ -1321,7 +1329,9 @@ def run_entry_agreement(ctx, env, n):
         # ---- derived entry points at the knots against the scalar references
         checks = []
         A = (env.Mock(case), el)
-        if dim == 1:
+        if npt < 2:
+            pass                     # interpolators and equilibrium maps need at least two knots
+        elif dim == 1:
             checks += [('interpolators1d_match_plasma_neutrality', 'mn',
                         lambda: ib.interpolators1d_match_plasma_neutrality(*A, fv, species, ne_o, te_o, donor, nd_arg, case['dq']), lambda f, pt: f(pt[0])),
                        ('interpolators1d_fractional', 'frac',
@@ -1359,7 +1369,7 @@ def run_entry_agreement(ctx, env, n):
                          'species given as %r)' % (name, {'mn': 'match_plasma_neutrality', 'frac': 'fractional_abundance', 'fd': 'from_elementdensity'}[which],
                                                    dev, mode, sphow), desc)
         # ---- equilibrium maps (1-D profiles over psi_n)
-        if dim == 1 and it % 2 == 0:
+        if dim == 1 and npt >= 2 and (it % 2 == 0 or it < 4):
             _equilibrium_checks(ctx, env, case, el, donor, fv, ne_o, te_o, nd_arg, dens_o, species, desc, Interpolator1DArray, ref, mode, stol)
     if lines:
         outs = ctx.driver(lines)
@@ -1410,9 +1420,9 @@ def _equilibrium_checks(ctx, env, case, el, donor, psin, ne_o, te_o, nd_arg, den
     eq = env.equilibrium()
     Z = case['Z']
     rng = ctx.rng
-    pts = []
     ax = eq.magnetic_axis
-    while len(pts) < 4:
+    pts = [(ax.x * math.cos(0.4), ax.x * math.sin(0.4), ax.y, eq.psi_normalised(ax.x, ax.y))]      # psi_n ~ 0: the first knot
+    while len(pts) < 5:
         r = ax.x + rng.uniform(-0.6, 0.6)
         z = ax.y + rng.uniform(-0.8, 0.8)
         if eq.inside_lcfs(r, z) > 0.5 and 0.02 < eq.psi_normalised(r, z) < 0.98:
@@ -1520,7 +1530,7 @@ SEQ_ENTRIES = ['fractional_abundance', 'from_elementdensity', 'match_plasma_neut
                'interpolators1d_fractional', 'interpolators1d_from_elementdensity', 'interpolators1d_match_plasma_neutrality',
                'interpolators2d_fractional', 'interpolators2d_from_elementdensity', 'interpolators2d_match_plasma_neutrality',
                'equilibrium_map3d_fractional', 'equilibrium_map3d_from_elementdensity', 'equilibrium_map3d_match_plasma_neutrality']
-SEQ_XS = [0.0, 0.5, 1.05]
+SEQ_XS = [0.0, 1.05]          # minimal two-point grid; the 2-D form uses 2 x 2
 SEQ_YS = [0.1, 0.7]
 SEQ_EQ_POINTS = None
 
